@@ -113,6 +113,7 @@ def parse_output(text, byid):
 
 
 def replay(q):
+    qd = q_dict(q)            # one parameter dictionary used for the searches on both graphs, as a caller would
     for wi, (st, g, byid) in enumerate(worlds()):
         for way in ("string", "dict"):
             rec = {"fam": "query", "src": "model", "world": wi, "way": way, "mode": q["mode"], "w": st, "out": "ok", "exc": "none", "blocks": []}
@@ -127,7 +128,7 @@ def replay(q):
                 if way == "string":
                     text = ff.find(mode=q["mode"], graph=g, q_str=q_string(q))
                 else:
-                    text = ff.find(mode=q["mode"], graph=g, q_params=q_dict(q))
+                    text = ff.find(mode=q["mode"], graph=g, q_params=qd)
                 rec["blocks"] = parse_output(text, byid)
             except Exception as e:
                 rec["out"], rec["exc"] = "raised", type(e).__name__
